@@ -458,6 +458,7 @@ class Engine:
         self.assumed_defined = 0
         self.cut_owner = {}
         self.cut_hits = set()
+        self.cur_line = None
         self.path_axioms = []
         self.range_guards = {}
         self.cur_argview = None
@@ -664,7 +665,7 @@ class Engine:
             self.obs.append(Ob("%s.defined.%s" % (self.cur_label(), _slug(msg)), "discharged", "z3", 0.0, cls, ("defined",),
                                path=self.path_id, func=self.top_qual()))
             return
-        self.oblige("defined." + _slug(msg), t, cls=cls, tags=("defined",), detail=msg)
+        self.oblige("defined." + _slug(msg), t, cls=cls, tags=("defined",), detail="%s (at line %s%s)" % (msg, self.cur_line, ", in contract text" if self.in_spec else ""))
 
     def dtype_store(self, a, v):
         self.oblige("dtype_store.float_into_int_buffer", z3.BoolVal(False) if not self.must(self.is_integer_valued(to_z3(v))) else z3.BoolVal(True),
@@ -696,8 +697,10 @@ class Engine:
         finally:
             self.in_spec -= 1
 
-    def under(self, hyp, thunk):
-        """evaluate thunk() with `hyp` temporarily assumed (definedness obligations raised inside see it)"""
+    def under(self, hyp, thunk, default=None):
+        """evaluate thunk() with `hyp` temporarily assumed (definedness obligations raised inside see it).
+        If the hypothesis is infeasible on this path the thunk's value is irrelevant (it is only used guarded by
+        `hyp`): an exception raised while evaluating it is swallowed and `default` (or True) returned."""
         self.solver.push()
         n0 = len(self.path_assumptions)
         outer = self.scope_id
@@ -706,7 +709,12 @@ class Engine:
         self.scope_id = self.scope_ctr
         try:
             self.assume(hyp)
-            return thunk()
+            try:
+                return thunk()
+            except (PyRaise, PathEnd):
+                if self.check() == z3.unsat:
+                    return default if default is not None else z3.BoolVal(True)
+                raise
         finally:
             self.solver.pop()
             del self.path_assumptions[n0:]
@@ -917,6 +925,7 @@ class Engine:
         self.ext_unknown = False
         self.path_axioms = []
         self.range_guards = {}
+        self.cur_line = None
         for ax in self.axioms:
             self.solver.add(ax)
         try:
@@ -1098,6 +1107,8 @@ class Engine:
         if m is None:
             raise Unsupported("statement %s at line %d" % (type(st).__name__, st.lineno))
         top = self.call_depth == 1 and self.cur_contract is not None
+        if top:
+            self.cur_line = getattr(st, "lineno", None)
         if top and self.cur_contract.cuts:
             seg, unp = self.stmt_text(st, env)
             for pat, fn in self.cur_contract.cuts:
@@ -1280,7 +1291,7 @@ class Engine:
         entry = dict(env.vars)
         s0 = LoopState(self, env, entry=entry)
         for item in self.spec_eval(lambda: lc.inv(s0)):
-            self.oblige("%s.init.%s" % (tag, item[0]), item[1], cls=(item[2] if len(item) > 2 else lc.cls))
+            self.oblige("%s.init.%s" % (tag, item[0]), item[1], cls=(item[2] if len(item) > 2 else lc.cls), tags=(item[3] if len(item) > 3 else ()))
         mod = _assigned_names(st) | set(lc.havoc)
         arbitrary = self.decide(tag)
         self.havoc(env, mod, lc, st, entry)
@@ -1300,7 +1311,7 @@ class Engine:
                 raise Unsupported("break inside a loop under contract")
             s2 = LoopState(self, env, entry=entry)
             for item in self.spec_eval(lambda: lc.inv(s2)):
-                self.oblige("%s.preserve.%s" % (tag, item[0]), item[1], cls=(item[2] if len(item) > 2 else lc.cls))
+                self.oblige("%s.preserve.%s" % (tag, item[0]), item[1], cls=(item[2] if len(item) > 2 else lc.cls), tags=(item[3] if len(item) > 3 else ()))
             if v0 is not None:
                 v1 = lc.variant(s2)
                 self.oblige("%s.variant" % tag, z3.And(to_z3(v1) < to_z3(v0), to_z3(v0) >= 0 if True else True), cls="S")
@@ -1339,14 +1350,17 @@ class Engine:
         entry = dict(env.vars)
         s0 = LoopState(self, env, k=0, n=n_eff, seq=seq, entry=entry)
         for item in self.spec_eval(lambda: lc.inv(s0)):
-            self.oblige("%s.init.%s" % (tag, item[0]), item[1], cls=(item[2] if len(item) > 2 else lc.cls))
+            self.oblige("%s.init.%s" % (tag, item[0]), item[1], cls=(item[2] if len(item) > 2 else lc.cls), tags=(item[3] if len(item) > 3 else ()))
         mod = (_assigned_names(st) | set(lc.havoc)) - _target_names(st.target)
         arbitrary = self.decide(tag)
-        self.havoc(env, mod, lc, st, entry)
         if arbitrary:
             k = self.fresh_int("k_" + tag)
             self.assume(z3.And(k.t >= 0, k.t < to_z3(n_eff)))
             env.vars["__k_" + tag] = k
+        else:
+            env.vars["__k_" + tag] = n_eff
+        self.havoc(env, mod, lc, st, entry)
+        if arbitrary:
             s1 = LoopState(self, env, k=k, n=n_eff, seq=seq, entry=entry, mode="assume")
             for item in self.spec_eval(lambda: lc.inv(s1)):
                 self.assume(zb(item[1]))
@@ -1362,7 +1376,7 @@ class Engine:
             items2 = self.spec_eval(lambda: lc.inv(s2))
             self.in_preserve = False
             for item in items2:
-                self.oblige("%s.preserve.%s" % (tag, item[0]), item[1], cls=(item[2] if len(item) > 2 else lc.cls))
+                self.oblige("%s.preserve.%s" % (tag, item[0]), item[1], cls=(item[2] if len(item) > 2 else lc.cls), tags=(item[3] if len(item) > 3 else ()))
             raise PathEnd()
         else:
             s1 = LoopState(self, env, k=n_eff, n=n_eff, seq=seq, entry=entry, mode="assume")
